@@ -207,8 +207,8 @@ func move(t *rt.Thread, c *rt.GoCont) (rt.Cont, error) {
 		}
 		dstVal = c.Arg(4)
 	}
-	if srcStart > srcEnd || srcStart == dstStart && dstVal == srcVal {
-		// Nothing to do apparently!
+	if srcStart > srcEnd {
+		// Nothing to do
 	} else if srcStart <= 0 && srcStart+math.MaxInt64 <= srcEnd {
 		return nil, errors.New("interval too large")
 	} else if dstStart >= srcStart {
